@@ -90,7 +90,7 @@
         buf[p + 1 + col * k + j]
     }
 
-// @h id=H6.1-N$n-m$m prop=C06,C02,C18 rep="n:0-9" quick="2-5" rep2="m:0-5" quick2="0,3" quick_C02="3-5" quick_C18="3-5" cap=900 mem=20 unwind=12 uw="FixW=40;h6_1_spill=40;stub_to_writer=11" stubs="Directory::to_writer -> fixed-shape reference encoder (1-byte fields); MAX_ROOT_DIR_LENGTH comparisons read verif_io::ROOT_BUDGET (13) instead of the real 16257" bounds="N=$n tile entries with 1-byte fields (ids < 120 ascending, run lengths 1..3, lengths/offsets < 120), value mode m%2 (0: ids+offsets symbolic, 1: ids+run lengths symbolic; lengths concrete), root budget 13 bytes (N <= 2 below, N = 3 exactly on the budget, N >= 4 spills; N = 9 spills to a root exactly on the budget), initial leaf size 1 + m/2 in {1,2,3}, start position 3 in a pre-filled stream"
+// @h id=H6.1-N$n-m$m prop=C06,C02 rep="n:0-9" quick="2-5" rep2="m:0-5" quick2="0,3" quick_C02="3-5" cap=900 mem=20 unwind=12 uw="FixW=40;h6_1_spill=40;stub_to_writer=11" stubs="Directory::to_writer -> fixed-shape reference encoder (1-byte fields); MAX_ROOT_DIR_LENGTH comparisons read verif_io::ROOT_BUDGET (13) instead of the real 16257" bounds="N=$n tile entries with 1-byte fields (ids < 120 ascending, run lengths 1..3, lengths/offsets < 120), value mode m%2 (0: ids+offsets symbolic, 1: ids+run lengths symbolic; lengths concrete), root budget 13 bytes (N <= 2 below, N = 3 exactly on the budget, N >= 4 spills; N = 9 spills to a root exactly on the budget), initial leaf size 1 + m/2 in {1,2,3}, start position 3 in a pre-filled stream"
     /// fits => single root directory == spec encoding, empty leaf section; does not fit => root within the budget holding only leaf pointers (first id, running offset, exact length) whose leaves decode to the original entries in order; root written at the original start position
     #[kani::proof]
     #[kani::stub(crate::directory::Directory::to_writer, stub_to_writer)]
